@@ -21,26 +21,25 @@ Definition kernel_wf (w : wobs) : bool := wf_table (ks_tab (wo_ks w)).
 Definition names_distinct (cfg : cfgT) (w : wobs) : bool := nodup_paths (children (wo_fs w) (c_layers cfg)).
 
 Theorem no_diverge cfg w e cmd um :
-  C02.forest_ok cfg (wo_fs w) = true -> kernel_wf w = true -> names_distinct cfg w = true ->
+  C02.forest_ok cfg (wo_fs w) = true -> names_distinct cfg w = true ->
   match v_res (view_of_model cfg w e cmd um) with RDiverge | RPanic => false | _ => true end = true.
 Proof.
-  intros HF HK HN. rewrite view_model_eq. cbv zeta. cbn [v_res].
+  intros HF HN. rewrite view_model_eq. cbv zeta. cbn [v_res].
   unfold C02.forest_ok in HF. apply forest_ok_parts in HF as [HC _].
-  pose proof (run_command_no_bad e cfg um cmd (start w) HK HC (nodup_paths_NoDup _ HN)) as H.
+  pose proof (run_command_no_bad e cfg um cmd (start w) HC (nodup_paths_NoDup _ HN)) as H.
   destruct (fst (run_command e cfg um cmd (start w))); cbn in *; auto; contradiction.
 Qed.
 
 Theorem breaking_refused_view cfg w e cmd um :
-  kernel_wf w = true ->
   let v := view_of_model cfg w e cmd um in
   (negb (C02.forest_ok cfg (wo_fs w) && base_set_up cfg (wo_fs w) && C02.breaking cfg (wo_fs w) (v_cmd v))
    || (rclass_beq (v_res v) RFail && unchanged w v)) = true.
 Proof.
-  intros HK v. subst v. rewrite view_model_eq. cbv zeta. cbn [v_cmd v_res].
+  intros v. subst v. rewrite view_model_eq. cbv zeta. cbn [v_cmd v_res].
   destruct (C02.forest_ok cfg (wo_fs w)) eqn:HF; [|reflexivity].
   destruct (base_set_up cfg (wo_fs w)); [|reflexivity].
   destruct (C02.breaking cfg (wo_fs w) cmd) eqn:HB; [|reflexivity]. cbn [andb negb orb].
-  rewrite (breaking_refused e cfg um cmd (start w) HK HF HB). cbn [fst snd rclass_of rclass_beq andb].
+  rewrite (breaking_refused e cfg um cmd (start w) HF HB). cbn [fst snd rclass_of rclass_beq andb].
   unfold unchanged. destruct w as [f k]. cbn [start world_of s_w w_fs w_ks wo_fs wo_ks v_after].
   now rewrite fs_beq_refl, ktab_beq_refl.
 Qed.
@@ -93,16 +92,16 @@ Qed.
 
 (* all four conjuncts of step_spec together *)
 Theorem step_spec_view cfg w e cmd um :
-  cfg_ok cfg = true -> fs_ok cfg (wo_fs w) = true -> kernel_wf w = true -> names_distinct cfg w = true ->
+  cfg_ok cfg = true -> fs_ok cfg (wo_fs w) = true -> names_distinct cfg w = true ->
   paths_distinct w = true -> no_stale_tmp cfg (wo_fs w) cmd = true ->
   C02.forest_ok cfg (wo_fs w) = true ->
   in_scope e cmd (v_res (view_of_model cfg w e cmd um)) = true ->
   C02.step_spec cfg w (view_of_model cfg w e cmd um) = true.
 Proof.
-  intros Hcfg Hfs Hk Hnd Hpd Hst HF Hsc. unfold C02.step_spec.
-  pose proof (no_diverge cfg w e cmd um HF Hk Hnd) as H1.
+  intros Hcfg Hfs Hnd Hpd Hst HF Hsc. unfold C02.step_spec.
+  pose proof (no_diverge cfg w e cmd um HF Hnd) as H1.
   pose proof (forest_preserved_view cfg w e cmd um Hcfg Hfs Hnd Hsc) as H2.
-  pose proof (breaking_refused_view cfg w e cmd um Hk) as H3. cbv zeta in H2, H3.
+  pose proof (breaking_refused_view cfg w e cmd um) as H3. cbv zeta in H2, H3.
   rewrite H1, H2, H3. cbn [andb].
   assert (Ee : v_env (view_of_model cfg w e cmd um) = e) by (rewrite view_model_eq; reflexivity).
   rewrite Ee. destruct (e_pretend e) eqn:Hp; [reflexivity|]. cbn [negb andb].
